@@ -118,6 +118,8 @@ def worker_init() -> None:
     class Props(ECUProperties):  # type: ignore[misc]
         vin: str = ""
         sw: int = 0
+        coding: bool = False
+        note: str | None = None
 
     class Cfg:
         def model_dump_json(self) -> str:
@@ -252,24 +254,27 @@ def execute(item: dict[str, Any]) -> dict[str, Any]:
 
         async def main() -> None:
             G["run_tag"] = "A"
-            propsA = G["Props"](vin="WVWAAA", sw=1)
-            wireA = await record(path, seed, letters, "tcp-lines://ecu-a:1", propsA if shape == "props" else None, box, "A")
+            propsA = G["Props"](vin="WVWAAA", sw=1) if shape != "props0" else G["Props"](vin="", sw=0, coding=False, note=None)
+            wireA = await record(path, seed, letters, "tcp-lines://ecu-a:1", propsA if shape in ("props", "props0") else None, box, "A")
             box["wireA"] = wireA
             name = None
             props = None
             if shape == "twice":
                 G["run_tag"] = "A2"
                 await record(path, seed, letters, "tcp-lines://ecu-a:1", None, box, "A2")
-            elif shape in ("name", "props"):
+            elif shape in ("name", "props", "props0"):
                 G["run_tag"] = "B"
-                propsB = G["Props"](vin="WVWBBB", sw=1)
-                wireB = await record(path, seed + 1000, letters, "tcp-lines://ecu-b:1", propsB if shape == "props" else None, box, "B")
+                propsB = G["Props"](vin="WVWBBB", sw=1) if shape != "props0" else G["Props"](vin="x", sw=7, coding=True, note="n")
+                wireB = await record(path, seed + 1000, letters, "tcp-lines://ecu-b:1", propsB if shape in ("props", "props0") else None, box, "B")
                 box["wireB"] = wireB
                 if shape == "name":
                     tag_ecus(path, {"tcp-lines://ecu-a:1": "A", "tcp-lines://ecu-b:1": "B"})
                     name = "A"
-                else:
+                elif shape == "props":
                     props = {"vin": "WVWAAA"}
+                else:
+                    # falsy and null property values select like any other value
+                    props = item.get("select") or {"sw": 0, "coding": False, "note": None}
             box["replay"] = await replay_db(path, [q for q, _ in wireA], name, props)
 
         task = run.loop.create_task(main(), name="main")
@@ -360,8 +365,20 @@ def items(tier: str, seed: int) -> list[Any]:
                 shapes = ["one"]
                 if n <= 2:
                     shapes += ["twice", "name", "props"]
+                if n == 1 or (n == 2 and seq[0] == seq[1]):
+                    shapes += ["props0"]
                 for sh in shapes:
                     out.append({"seed": sd, "letters": list(seq), "shape": sh, "sample": sd == 1 and seq in (("dsc2", "seed", "keyok"), ("dsc2", "rd1")) and sh == "one"})
+        # deeper states first: prefixes that leave the default session / unlock security, then every short suffix
+        prefixes = [["dsc2", "seed", "keyok"], ["seed", "keyok"], ["dsc3", "seed", "keyok"], ["dsc2", "dsc3"], ["dsc2", "seed"]]
+        suffix_alpha = ["dsc2", "dsc3", "dsc1", "seed", "keyok", "keybad", "reset", "f186", "rd1", "wr1", "rt1", "tp"]
+        for pre in prefixes:
+            for m in (1, 2):
+                for suf in itertools.product(suffix_alpha if m == 1 or not quick else suffix_alpha[:9], repeat=m):
+                    out.append({"seed": sd, "letters": pre + list(suf), "shape": "one", "sample": False})
+    for sd in list(seeds)[:2]:
+        for sel in ({"sw": 0}, {"coding": False}, {"note": None}, {"vin": ""}, {"sw": 0, "vin": ""}):
+            out.append({"seed": sd, "letters": ["rd1", "dsc2", "rd1"], "shape": "props0", "select": sel, "sample": False})
     return out
 
 
